@@ -291,6 +291,17 @@ class Engine(
                             # want to move the Projection inside the Chain, to
                             # make it easier to avoid subqueries in UNION [ALL]
                             # constructs later.
+                            if select.has_sort and not select.sort.columns_required <= operation.columns:
+                                # ... which is impossible if the Sort needs
+                                # columns the Projection drops; do the Sort
+                                # and Projection in an outer query instead.
+                                subquery = select.reapply_skip(sort=None, slice=None)
+                                return Select.apply_skip(
+                                    subquery,
+                                    projection=operation,
+                                    sort=select.sort,
+                                    slice=select.slice,
+                                )
                             return select.reapply_skip(
                                 skip_to=chain._finish_apply(operation.apply(lhs), operation.apply(rhs)),
                                 projection=None,
